@@ -261,16 +261,18 @@ def validate_impl(traces, jobs=8, batch=60, keep_dir=None, timeout=1800):
         docs = [impl_trace(tr, tid) for tid, tr in b]
         with open(f, 'w') as fh:
             json.dump(docs, fh)
-        files.append((f, [t for t, _ in b], max(len(x['lines'][-1]['s']['snap']) for x in docs),
+        tmo_types = sorted({ty for _, tr in b for ty, o in (tr['scn'].get('events') or {}).items() if (o or {}).get('timeout') is not None})
+        files.append((f, [t for t, _ in b], tmo_types, max(len(x['lines'][-1]['s']['snap']) for x in docs),
                       max(sum(1 for l in x['lines'] if l['a'] == 'HEnter' or (l['a'] == 'Disp' and l.get('fw'))) + 2 for x in docs), max(len(tr['scn']['drivers']) for _, tr in b)))
 
     def one(item):
-        f, ids, maxev, maxact, ndrv = item
+        f, ids, tmo_types, maxev, maxact, ndrv = item
         cfgp = f[:-5] + '.cfg'
         base = open(os.path.join(SPEC, 'TraceImpl.cfg')).read()
         base = re.sub(r'MaxEv = \d+', 'MaxEv = %d' % max(1, maxev), base)
         base = re.sub(r'MaxAct = \d+', 'MaxAct = %d' % max(1, maxact), base)
         base = re.sub(r'NDrv = \d+', 'NDrv = %d' % max(1, ndrv), base)
+        base = re.sub(r'TimeoutTypes = \{[^}]*\}', 'TimeoutTypes = {%s}' % ', '.join('"%s"' % t for t in tmo_types), base)   # the event types created with a timeout in this batch
         open(cfgp, 'w').write(base)
         return run_tlc('TraceImpl.tla', cfgp, env={'TRACE_FILE': f, 'JAVA_TOOL_OPTIONS': '-Dtlc2.tool.queue.IStateQueue=StateDeque'},
                        workers=1, timeout=timeout)
